@@ -204,7 +204,6 @@ macro_rules! wide_dec {
                 norm[i] = d;
                 i += 1;
             }
-            kani::assume(norm[0] != 0); // exactly L significant digits
             let bound: &[u8; L] = $bound;
             let mut b = [0u8; L];
             i = 0;
@@ -217,16 +216,16 @@ macro_rules! wide_dec {
             match &r {
                 Ok(v) => {
                     assert!(fits, "value beyond the target width accepted (wrapped?)");
-                    // exactness: re-derive the decimal digits of v from the least significant end
-                    let mut x = *v;
-                    let mut k = L;
-                    while k > 0 {
-                        k -= 1;
-                        let dig = wide_dec!(@lastdigit $signed, x);
-                        assert!(dig == norm[k], "parsed value has a different digit");
-                        x /= 10;
+                    // exactness: Horner evaluation of the digits in wrapping u64 arithmetic (exact
+                    // whenever the value fits, which was just asserted); no division in the oracle
+                    let mut w: u128 = 0;
+                    let mut k = 0;
+                    while k < L {
+                        w = w.wrapping_mul(10).wrapping_add(norm[k] as u128);
+                        k += 1;
                     }
-                    assert!(x == 0);
+                    assert!(wide_dec!(@mag $signed, *v) == w, "parsed value differs from the digits");
+                    assert!(wide_dec!(@isneg $signed, *v) == ($neg && w != 0));
                     kani::cover!(true, "accepted");
                 }
                 Err(_) => {
@@ -239,8 +238,10 @@ macro_rules! wide_dec {
     };
     (@call signed, $t:ty, $s:expr, $tyname:expr) => { parse_int_signed::<$t>($s, $tyname, loc(), false) };
     (@call unsigned, $t:ty, $s:expr, $tyname:expr) => { parse_int_unsigned::<$t>($s, $tyname, loc(), false) };
-    (@lastdigit signed, $x:expr) => { ($x % 10).unsigned_abs() as u8 };
-    (@lastdigit unsigned, $x:expr) => { ($x % 10) as u8 };
+    (@mag signed, $x:expr) => { $x.unsigned_abs() as u128 };
+    (@mag unsigned, $x:expr) => { $x as u128 };
+    (@isneg signed, $x:expr) => { $x < 0 };
+    (@isneg unsigned, $x:expr) => { false };
 }
 
 // i16: 5 digits, bounds 32767 / -32768 ; u16: 65535
@@ -281,7 +282,6 @@ macro_rules! wide_radix {
                 norm[i] = hex_val(c);
                 i += 1;
             }
-            kani::assume(norm[0] != 0);
             let bound: &[u8; L] = $bound;
             let mut b = [0u8; L];
             i = 0;
@@ -294,15 +294,15 @@ macro_rules! wide_radix {
             match &r {
                 Ok(v) => {
                     assert!(fits, "value beyond the target width accepted (wrapped?)");
-                    let mut x = *v;
-                    let mut k = L;
-                    while k > 0 {
-                        k -= 1;
-                        let dig = wide_radix!(@lastdigit $signed, x, $radix);
-                        assert!(dig == norm[k], "parsed value has a different digit");
-                        x /= $radix;
+                    let shift: u32 = if $radix == 16 { 4 } else if $radix == 8 { 3 } else { 1 };
+                    let mut w: u128 = 0;
+                    let mut k = 0;
+                    while k < L {
+                        w = (w << shift) | norm[k] as u128;
+                        k += 1;
                     }
-                    assert!(x == 0);
+                    assert!(wide_dec!(@mag $signed, *v) == w, "parsed value differs from the digits");
+                    assert!(wide_dec!(@isneg $signed, *v) == ($neg && w != 0));
                     kani::cover!(true, "accepted");
                 }
                 Err(_) => {
@@ -313,24 +313,28 @@ macro_rules! wide_radix {
             std::mem::forget(r);
         }
     };
-    (@lastdigit signed, $x:expr, $radix:expr) => { ($x % $radix).unsigned_abs() as u8 };
-    (@lastdigit unsigned, $x:expr, $radix:expr) => { ($x % $radix) as u8 };
 }
 
 wide_radix!(c06_wide_hex_i8_pos, i8, "i8", 2, false, b'x', 16, b"7f", 8, signed);
 wide_radix!(c06_wide_hex_i8_neg, i8, "i8", 2, true, b'x', 16, b"80", 8, signed);
-wide_radix!(c06_wide_hex_u8, u8, "u8", 2, false, b'X', 16, b"ff", 8, unsigned);
+wide_radix!(c06_wide_hex_u8, u8, "u8", 3, false, b'X', 16, b"0ff", 8, unsigned);
 wide_radix!(c06_wide_oct_i8_pos, i8, "i8", 3, false, b'o', 8, b"177", 8, signed);
 wide_radix!(c06_wide_oct_u8, u8, "u8", 3, false, b'o', 8, b"377", 8, unsigned);
-wide_radix!(c06_wide_bin_i8_pos, i8, "i8", 7, false, b'b', 2, b"1111111", 12, signed);
+wide_radix!(c06_wide_bin_i8_pos, i8, "i8", 8, false, b'b', 2, b"01111111", 13, signed);
 wide_radix!(c06_wide_bin_i8_neg, i8, "i8", 8, true, b'b', 2, b"10000000", 13, signed);
-wide_radix!(c06_wide_bin_u8, u8, "u8", 8, false, b'b', 2, b"11111111", 13, unsigned);
+wide_radix!(c06_wide_bin_u8, u8, "u8", 9, false, b'b', 2, b"011111111", 14, unsigned);
 wide_radix!(c06_wide_hex_i32_pos, i32, "i32", 8, false, b'x', 16, b"7fffffff", 13, signed);
 wide_radix!(c06_wide_hex_i32_neg, i32, "i32", 8, true, b'x', 16, b"80000000", 13, signed);
-wide_radix!(c06_wide_hex_u32, u32, "u32", 8, false, b'x', 16, b"ffffffff", 13, unsigned);
+wide_radix!(c06_wide_hex_u32, u32, "u32", 9, false, b'x', 16, b"0ffffffff", 14, unsigned);
 wide_radix!(c06_wide_hex_i64_pos, i64, "i64", 16, false, b'x', 16, b"7fffffffffffffff", 21, signed);
 wide_radix!(c06_wide_hex_i64_neg, i64, "i64", 16, true, b'x', 16, b"8000000000000000", 21, signed);
-wide_radix!(c06_wide_hex_u64, u64, "u64", 16, false, b'x', 16, b"ffffffffffffffff", 21, unsigned);
+wide_radix!(c06_wide_hex_u64, u64, "u64", 17, false, b'x', 16, b"0ffffffffffffffff", 22, unsigned);
+// 32 hex digits: magnitudes up to 2^128-1 against 64- and 128-bit signed targets (u128 -> i128 -> T narrowing)
+wide_radix!(c06_wide_hex32_i64_pos, i64, "i64", 32, false, b'x', 16, b"00000000000000007fffffffffffffff", 37, signed);
+wide_radix!(c06_wide_hex32_i64_neg, i64, "i64", 32, true, b'x', 16, b"00000000000000008000000000000000", 37, signed);
+wide_radix!(c06_wide_hex32_i128_pos, i128, "i128", 32, false, b'x', 16, b"7fffffffffffffffffffffffffffffff", 37, signed);
+wide_radix!(c06_wide_hex32_i128_neg, i128, "i128", 32, true, b'x', 16, b"80000000000000000000000000000000", 37, signed);
+wide_radix!(c06_wide_hex33_u128, u128, "u128", 33, false, b'x', 16, b"0ffffffffffffffffffffffffffffffff", 38, unsigned);
 wide_radix!(c06_wide_oct_i64_pos, i64, "i64", 21, false, b'o', 8, b"777777777777777777777", 26, signed);
 wide_radix!(c06_wide_oct_u64, u64, "u64", 22, false, b'o', 8, b"1777777777777777777777", 27, unsigned);
 
@@ -452,17 +456,15 @@ fn c06_leading_zero_4() {
 // Float special tokens: .nan/.inf forms (case, sign) are decided before the decimal parser.
 // dec2flt itself is libcore's and outside; here T::from_str is only reached for other tokens.
 // ------------------------------------------------------------------------------------------
-#[kani::proof]
-#[kani::unwind(8)]
-#[kani::stub(core::str::validations::run_utf8_validation, stdlite::run_utf8_validation)]
-fn c06_float_special_5() {
-    let a: [u8; 5] = any_ascii::<5>();
-    let len: usize = kani::any();
-    kani::assume(len == 4 || len == 5);
-    let s = &a[..len];
-    // restrict to tokens made of the special-form alphabet so that dec2flt is never the decider
+fn float_special_n<const N: usize>() {
+    let a: [u8; N] = any_ascii::<N>();
+    let s = &a[..];
+    // Tokens over the alphabet of the special forms. The documented forms must be accepted with
+    // the documented value; every other token over this alphabet is not a number at all (Rust's
+    // own float syntax would additionally admit [+-]?(inf|nan|infinity), which YAML does not
+    // list but the crate deliberately delegates to `str::parse`) and must be rejected.
     let mut i = 0;
-    while i < len {
+    while i < N {
         let c = s[i];
         let ok = matches!(c, b'.' | b'+' | b'-' | b'n' | b'N' | b'a' | b'A' | b'i' | b'I' | b'f' | b'F');
         kani::assume(ok);
@@ -471,20 +473,41 @@ fn c06_float_special_5() {
     let nan = eq_ci(s, b".nan") || eq_ci(s, b"+.nan") || eq_ci(s, b"-.nan");
     let pinf = eq_ci(s, b".inf") || eq_ci(s, b"+.inf");
     let ninf = eq_ci(s, b"-.inf");
-    kani::assume(nan || pinf || ninf); // other tokens over this alphabet go to dec2flt ("inf", "nan", ...)
+    // what str::parse::<f64> accepts over this alphabet
+    let rust_nan = eq_ci(s, b"nan") || eq_ci(s, b"+nan") || eq_ci(s, b"-nan");
+    let rust_pinf = eq_ci(s, b"inf") || eq_ci(s, b"+inf");
+    let rust_ninf = eq_ci(s, b"-inf");
     let r = parse_yaml12_float::<f64>(as_str(s), loc(), SfTag::None, false);
     match &r {
         Ok(v) => {
-            assert!(nan == v.is_nan());
-            assert!(pinf == (*v == f64::INFINITY));
-            assert!(ninf == (*v == f64::NEG_INFINITY));
+            assert!(nan || pinf || ninf || rust_nan || rust_pinf || rust_ninf, "a token that is no float notation was accepted");
+            assert!((nan || rust_nan) == v.is_nan());
+            assert!((pinf || rust_pinf) == (*v == f64::INFINITY));
+            assert!((ninf || rust_ninf) == (*v == f64::NEG_INFINITY));
             kani::cover!(ninf, "negative infinity");
             kani::cover!(nan, "nan");
         }
-        Err(_) => assert!(false, "documented special float token rejected"),
+        Err(_) => {
+            assert!(!(nan || pinf || ninf), "documented special float token rejected");
+            kani::cover!(true, "non-float token rejected");
+        }
     }
     std::mem::forget(r);
 }
+
+macro_rules! float_special {
+    ($name:ident, $n:expr, $unwind:expr) => {
+        #[kani::proof]
+        #[kani::unwind($unwind)]
+        #[kani::stub(core::str::validations::run_utf8_validation, stdlite::run_utf8_validation)]
+        fn $name() {
+            float_special_n::<$n>()
+        }
+    };
+}
+float_special!(c06_float_special_4, 4, 8);
+float_special!(c06_float_special_5, 5, 9);
+float_special!(c06_float_special_6, 6, 10);
 
 // concrete-playback slot: bin/check writes the solver counterexample here as a unit test for native replay
 include!("/verif/.build/playback/parse_scalars_pb.rs");
